@@ -16,7 +16,7 @@ RULE = ("histories (Hypothesis RuleBasedStateMachine, <= 20 / 40 steps) over doc
         "document with a fresh or a pooled (previously used) reader object and generated "
         "options; write some live caption set with some writer; edit a live caption set "
         "(add_style, set a key in a caption's style, append a node, change a node's text, "
-        "change times, adjust_caption_timing). After every read the canonical dump of the "
+        "change times, adjust_caption_timing, assign to origin / alignment of a Layout object of the set in place). After every read the canonical dump of the "
         "result (or the exception type) must equal the one obtained in pristine forked children "
         "under PYTHONHASHSEED 0 and 1 (thorough 0-3); after every step the dumps of all live "
         "caption sets other than the one being edited must be unchanged. Non-trivial: the "
@@ -235,7 +235,7 @@ def ctor_strategy(fmt):
 
 
 EDITS = ["add_style", "caption_style", "append_node", "node_text", "times", "retime", "set_styles_key",
-         "style_node_content", "style_node_content"]
+         "style_node_content", "style_node_content", "layout_in_place", "layout_in_place"]
 
 
 class State:
@@ -361,6 +361,19 @@ def exec_step(st_, step, rec):
                             done = True
                             break
                     if done:
+                        break
+            elif kind == "layout_in_place" and caps:
+                # a geometry object of this set edited in place (not rebound)
+                from pycaption.geometry import (Alignment, HorizontalAlignmentEnum, Point, Size, UnitEnum,
+                                                VerticalAlignmentEnum)
+                c = caps[step.get("n", 0) % len(caps)]
+                lays = [c.layout_info] + [nd.layout_info for nd in c.nodes]
+                for lay in lays:
+                    if lay is not None:
+                        if step.get("n", 0) % 2:
+                            lay.origin = Point(Size(7, UnitEnum.PERCENT), Size(7, UnitEnum.PERCENT))
+                        else:
+                            lay.alignment = Alignment(HorizontalAlignmentEnum.RIGHT, VerticalAlignmentEnum.TOP)
                         break
             elif kind == "times" and caps:
                 c = caps[step.get("n", 0) % len(caps)]
